@@ -1010,7 +1010,25 @@ fn gen_consist_sim(r: &mut Rng, n: usize) -> ConsistSimulation {
     let lo = if first_brakes { -0.05 * total } else { -0.15 * regen };
     let pt = gen_power_trace(r, n, lo, 0.3 * total, first_brakes);
     let si = *r.pick(&[Some(1), Some(1), Some(2), None]);
-    ConsistSimulation::new(con, pt, si)
+    let mut sim = ConsistSimulation::new(con, pt, si);
+    // nested save intervals need not be uniform (history switched off / thinned for one unit or one component):
+    // a reload must bring back exactly what was saved
+    if r.chance(0.5) && !sim.loco_con.loco_vec.is_empty() {
+        let k = r.usize(0, sim.loco_con.loco_vec.len() - 1);
+        let iv = match si {
+            Some(1) => *r.pick(&[None, Some(3)]),
+            Some(_) => *r.pick(&[None, Some(1)]),
+            None => *r.pick(&[Some(1), Some(3)]),
+        };
+        if r.chance(0.5) {
+            sim.loco_con.loco_vec[k].set_save_interval(iv);
+        } else if let Some(e) = sim.loco_con.loco_vec[k].fuel_converter_mut() {
+            e.save_interval = iv;
+        } else if let Some(b) = sim.loco_con.loco_vec[k].reversible_energy_storage_mut() {
+            b.save_interval = iv;
+        }
+    }
+    sim
 }
 
 struct Route {
@@ -1446,6 +1464,15 @@ pub fn run(ctx: &mut Ctx, r: &mut Rng, tier: &str) {
     }
     // the crate's own default simulations, stepped
     run.checkpoints("consist_sim.default", &ConsistSimulation::default(), if thorough { 30 } else { 8 }, 4);
+    {
+        // one unit's history switched off, one component's history thinned: the settings are per object
+        let mut s = ConsistSimulation::default();
+        s.loco_con.loco_vec[1].set_save_interval(None);
+        if let Some(e) = s.loco_con.loco_vec[0].fuel_converter_mut() {
+            e.save_interval = Some(2);
+        }
+        run.checkpoints("consist_sim.default.individual_intervals", &s, if thorough { 30 } else { 8 }, 4);
+    }
     run.checkpoints("loco_sim.default", &LocomotiveSimulation::new(Locomotive::default(), PowerTrace::default(), Some(1)), if thorough { 30 } else { 8 }, 4);
     {
         let mut s = SetSpeedTrainSim::default();
